@@ -45,6 +45,9 @@ def gen_case(rng, prefix):
             ty, v = gen_int(rng); ops.append("g%s:%d" % (ty, v)); fill = min(CAP, fill + len(str(v)))
         elif x < 0.7:
             ln = rng.choice([0, 1, 8, 40, CAP - fill, CAP - fill + 1, CAP]); k = rng.randrange(0, ln + 1) if ln else 0
+            if rng.random() < 0.12:
+                # lengths near usize::MAX: `old_len + len` must not wrap into "fits" (D17)
+                ln = rng.choice([2 ** 64 - 1, 2 ** 64 - 1 - fill, 2 ** 64 - fill, 2 ** 64 - fill + 3, 2 ** 63, 2 ** 63 - 1]); ln = min(ln, 2 ** 64 - 1); k = rng.randrange(0, 9)
             ops.append("d%d:%d:%d" % (max(0, ln), min(k, max(0, ln)), rng.randrange(0, 256)))
             if fill + ln <= CAP: fill += k
         elif x < 0.82: ops.append("f"); fill = 0
